@@ -217,3 +217,149 @@ pub fn c01_h3(rep: &Arc<Reporter>, args: &Args) {
         ep.task.abort();
     });
 }
+
+// ------------------------------------------------------------------ C05 / C04 on QUIC
+
+pub fn c05_h3(rep: &Arc<Reporter>, args: &Args) {
+    let dir = env::work_dir(&args.root, "c05h3");
+    let rt = env::rt_multi(4);
+    rt.block_on(async {
+        let hosts = Hosts { main: vec![("main.test".into(), vec!["alt.test".into()])], ping: vec!["ping.test".into()], speedtest: vec!["speed.test".into()], ..Default::default() };
+        for quic in [true, false] {
+            let ep = start_endpoint(&dir, "127.0.0.1", &hosts, None, vec![], (true, true, quic), |b| b.speedtest_enable(true)).await;
+            for (sni, cert_of, probe) in [("main.test", Some("main.test"), "tunnel"), ("alt.test", Some("main.test"), "tunnel"), ("tok-canarysni.main.test", Some("main.test"), "tunnel"),
+                                          ("ping.test", Some("ping.test"), "ping"), ("speed.test", Some("speed.test"), "speedtest"), ("nope.test", None, ""), ("xmain.test", None, "")] {
+                let r = H3::connect(ep.addr, sni, &[b"h3"], Duration::from_secs(if quic && cert_of.is_some() { 5 } else { 2 }), 4000).await;
+                rep.evals(1);
+                rep.distinct(common::fnv(format!("c05h3|{}|{}", quic, sni).as_bytes()));
+                let w = json!({"kind":"quic-demux","quic_listener":quic,"sni":sni,"session":r.as_ref().map(|_| "established".to_string()).unwrap_or_else(|e| e.clone())});
+                match (r, quic, cert_of) {
+                    (Ok(c), false, _) => { rep.violation("HTTP/3 session established although the QUIC listener is disabled", w); c.close().await; }
+                    (Err(_), false, _) => rep.tally("quic: no session when the QUIC listener is disabled", 1),
+                    (Err(_), true, Some(_)) => rep.violation("QUIC: SNI designating a configured host refused", w),
+                    (Err(_), true, None) => rep.tally("quic: SNI designating no entry refused", 1),
+                    (Ok(c), true, None) => { rep.tally("quic either: SNI designating no entry served", 1); c.close().await; }
+                    (Ok(mut c), true, Some(host)) => {
+                        if c.alpn != b"h3" { rep.violation("QUIC: negotiated protocol is not h3", w.clone()); }
+                        if c.peer_cert.as_deref() != ep.certs.get(host).map(|d| d.as_slice()) { rep.violation("QUIC: connection served with the certificate of another host entry", w.clone()); }
+                        // channel behaviour
+                        let st = match probe {
+                            "ping" => c.roundtrip("GET", Some("https"), sni, Some("/"), &[], true, true, T).await.map(|x| x.1).unwrap_or_default(),
+                            "speedtest" => c.roundtrip("GET", Some("https"), sni, Some("/0mb.bin"), &[], true, false, T).await.map(|x| x.1).unwrap_or_default(),
+                            _ => c.roundtrip("CONNECT", None, "_check", None, &[], false, false, T).await.map(|x| x.1).unwrap_or_default(),
+                        };
+                        let want = if probe == "speedtest" { 400 } else { 200 };
+                        if st.status() != Some(want) { let mut w2 = w.clone(); w2["probe"] = json!(probe); w2["response"] = json!(st.summary()); rep.violation("QUIC: connection not routed to the channel of the host its SNI designates", w2); }
+                        else { rep.tally(&format!("quic: {} host served with its certificate, h3 and channel", probe), 1); }
+                        c.close().await;
+                    }
+                }
+            }
+            ep.task.abort();
+        }
+    });
+}
+
+pub fn c04_h3(rep: &Arc<Reporter>, args: &Args) {
+    use trusttunnel::rules::{Rule, RuleAction, RulesConfig, RulesEngine};
+    let dir = env::work_dir(&args.root, "c04h3");
+    let rt = env::rt_multi(4);
+    rt.block_on(async {
+        let hosts = Hosts { main: vec![("main.test".into(), vec![])], ..Default::default() };
+        let mk = |rules: &[(Option<&str>, Option<&str>, bool)]| RulesEngine::from_config(RulesConfig { rule: rules.iter().map(|(c, p, allow)| Rule {
+            cidr: c.map(String::from), client_random_prefix: p.map(String::from), action: if *allow { RuleAction::Allow } else { RuleAction::Deny } }).collect() });
+        for (name, rules, want) in [
+            ("no rules", vec![], true), ("deny 127.0.0.0/8", vec![(Some("127.0.0.0/8"), None, false)], false), ("deny 10.0.0.0/8", vec![(Some("10.0.0.0/8"), None, false)], true),
+            ("allow 127/8 then deny all", vec![(Some("127.0.0.0/8"), None, true), (None, None, false)], true), ("deny all", vec![(None, None, false)], false),
+            ("deny client random 00/00 (every random)", vec![(None, Some("00/00"), false)], false), ("deny client random prefix deadbeefdeadbeef", vec![(None, Some("deadbeefdeadbeef"), false)], true),
+        ] {
+            let e = mk(&rules);
+            let ep = start_endpoint(&dir, "127.0.0.1", &hosts, None, vec![], (true, true, true), move |b| b.rules_engine(e)).await;
+            for attempt in 0..2 {
+                let r = H3::connect(ep.addr, "main.test", &[b"h3"], Duration::from_secs(if want { 5 } else { 2 }), 3000).await;
+                rep.evals(1);
+                rep.distinct(common::fnv(format!("c04h3|{}|{}", name, attempt).as_bytes()));
+                let (served, detail) = match r {
+                    Err(e) => (false, e),
+                    Ok(mut c) => { let st = c.roundtrip("CONNECT", None, "_check", None, &[], false, false, Duration::from_secs(if want { 5 } else { 2 })).await.map(|x| x.1).unwrap_or_default(); c.close().await; (st.status().is_some(), st.summary()) }
+                };
+                let w = json!({"kind":"quic-rules","scenario":name,"request_processed":served,"detail":detail});
+                if want && !served { rep.violation(&format!("QUIC: allowed peer got no response: {}", name), w); }
+                else if !want && served { rep.violation("QUIC: a request of a denied peer was processed", w); }
+                else { rep.tally(&format!("quic rules: {} -> {}", name, if served { "served" } else { "no request processed" }), 1); }
+            }
+            ep.task.abort();
+        }
+    });
+}
+
+// ------------------------------------------------------------------ C02 over HTTP/3
+
+pub fn c02_h3(rep: &Reporter, args: &Args) {
+    let dir = env::work_dir(&args.root, "c02h3");
+    let rt = env::rt_multi(4);
+    rt.block_on(async {
+        let (open, _accepted) = canary().await;
+        let hosts = Hosts { main: vec![("main.test".into(), vec![])], ..Default::default() };
+        let ep = start_endpoint(&dir, "127.0.0.1", &hosts, None, vec![], (true, true, true), |b| b.allow_private_network_connections(true)).await;
+        let sizes: Vec<usize> = if args.thorough() { vec![0, 1, 1000, 70_001, 300_000, 1_500_000, 6_000_000] } else { vec![1, 70_001, 300_000, 2_500_000] };
+        for (k, len) in sizes.into_iter().enumerate() {
+            let Some(mut c) = h3_connect(rep, ep.addr, "main.test").await else { continue };
+            let key = common::fnv(format!("c02h3-{}-{}", args.seed, k).as_bytes());
+            let data = crate::common::prng::coded_stream(key, 0, 0, len);
+            let Ok((id, st)) = c.roundtrip("CONNECT", None, &open.to_string(), None, &[], false, false, T).await else { rep.inconclusive("h3: request failed"); continue };
+            rep.evals(1);
+            rep.distinct(common::fnv(format!("c02h3|{}", len).as_bytes()));
+            if st.status() != Some(200) { rep.inconclusive("h3: CONNECT to the echo peer not accepted"); continue; }
+            // upload in pieces while draining the echo; the echo peer returns every byte in order
+            let mut sent = 0usize;
+            let mut failed = None;
+            let chunk = [1usize, 1200, 16_384, 65_536][k % 4].max(1);
+            while sent < len {
+                let n = chunk.min(len - sent);
+                if let Err(e) = c.send_body(id, &data[sent..sent + n], false, Duration::from_secs(30)).await { failed = Some(e); break; }
+                sent += n;
+            }
+            c.run_until(Duration::from_secs(30), |c| c.streams.get(&id).map(|s| s.body_len as usize >= len || s.reset.is_some()).unwrap_or(false)).await;
+            let got = c.stream(id);
+            let first_diff = got.body.iter().zip(data.iter()).position(|(a, b)| a != b);
+            let w = json!({"kind":"h3-tunnel-transfer","bytes":len,"upload_chunk":chunk,"uploaded":sent,"echoed_back":got.body.len(),"first_difference":first_diff,"send_error":failed,"stream":got.summary()});
+            if k == 1 && rep.want_sample() { rep.sample(w.clone()); }
+            if first_diff.is_some() || got.body.len() > len { rep.violation("l2 h3: bytes relayed through an HTTP/3 tunnel differ from the bytes sent", w); }
+            else if got.body.len() < len || failed.is_some() { rep.violation("l2 h3: HTTP/3 tunnel lost bytes or stalled (echo incomplete after 30 s)", w); }
+            else { rep.tally("l2 h3: position-coded stream echoed byte-exactly through an HTTP/3 tunnel", 1); rep.tally("l2 h3 bytes relayed and verified", 2 * len as u64); }
+            c.close().await;
+        }
+        ep.task.abort();
+    });
+}
+
+// ------------------------------------------------------------------ C19 over HTTP/3
+
+pub fn c19_h3(rep: &Arc<Reporter>, args: &Args) {
+    let dir = env::work_dir(&args.root, "c19h3");
+    let rt = env::rt_multi(4);
+    rt.block_on(async {
+        let (open, _) = canary().await;
+        for round in 0..args.qt(3u64, 20u64) {
+            let hosts = Hosts { main: vec![("main.test".into(), vec![])], ..Default::default() };
+            let ep = start_endpoint(&dir, "127.0.0.1", &hosts, None, vec![], (true, true, true), |b| b.allow_private_network_connections(true)).await;
+            let Some(mut c) = h3_connect(rep, ep.addr, "main.test").await else { ep.task.abort(); continue };
+            let with_tunnel = round % 2 == 0;
+            if with_tunnel { let _ = c.roundtrip("CONNECT", None, &open.to_string(), None, &[], false, false, T).await; }
+            else { let _ = c.roundtrip("CONNECT", None, "_check", None, &[], false, false, T).await; }
+            let sd = ep.ctx.shutdown.clone();
+            sd.lock().unwrap().submit();
+            // the session must be told to go away (GOAWAY) or closed with an application close, not left hanging
+            let told = c.run_until(Duration::from_secs(6), |c| c.goaway.is_some() || c.closed.is_some()).await;
+            rep.evals(1);
+            rep.distinct(common::fnv(format!("c19h3|{}", round).as_bytes()));
+            let w = json!({"kind":"h3-shutdown","round":round,"open_tunnel":with_tunnel,"goaway":c.goaway,"closed":c.closed});
+            if !told { rep.violation("H3 session was not told to go away after shutdown was submitted", w); }
+            else if c.closed.as_deref().map(|x| x.contains("timed_out=true")).unwrap_or(false) && c.goaway.is_none() { rep.violation("H3 session was left to time out after shutdown instead of being told to go away", w); }
+            else { rep.tally(if c.goaway.is_some() { "H3 client saw GOAWAY after shutdown" } else { "H3 client saw the connection closed after shutdown" }, 1); }
+            c.close().await;
+            ep.task.abort();
+        }
+    });
+}
